@@ -161,8 +161,18 @@ fn main() {
                 std::process::exit(0);
             }
             match replay::execute(&r) {
-                replay::ReplayOutcome::Reproduced(v) => {
+                replay::ReplayOutcome::Reproduced(v, recent) => {
                     if !quiet {
+                        if args.iter().any(|a| a == "--verbose") {
+                            if let Some(w) = &r.workload {
+                                println!("---- program ({}; {}) ----\n{}", w.family, w.descr, w.main_src);
+                            }
+                            println!("---- schedule ----\n{}", serde_json::to_string(&r.trace).unwrap_or_default());
+                            println!("---- last events ----");
+                            for e in &recent {
+                                println!("{e}");
+                            }
+                        }
                         println!("reproduced: oracle={} :: {}", v.oracle, v.msg);
                         println!("VIOLATION property={} replay={path}", r.property);
                     }
